@@ -46,6 +46,8 @@ def ACOT(number):
     number = utils.parse_number(number)
     if isinstance(number, error.XLError):
         return number
+    if number == 0:
+        return math.pi / 2  # arccot(0); 1 / number would divide by zero
     return math.atan(1 / number)
 
 
